@@ -464,6 +464,18 @@ Section Content.
   Proof. intros h. rewrite values_del. reflexivity. Qed.
   Lemma label_set : forall h, h_values_exact CE (h_set CE "gzip" h) = ["gzip"].
   Proof. intros h. rewrite values_set. reflexivity. Qed.
+  Lemma label_gzip_plain : forall q h, h_values_exact CE h = [] -> h_values_exact CE (label_gzip q h) = ["gzip"].
+  Proof.
+    intros q h H. unfold label_gzip. destruct (q_compress_replaces_label q).
+    - apply label_set.
+    - rewrite values_add. change (canon_key CE) with CE. rewrite String.eqb_refl, H. reflexivity.
+  Qed.
+  Lemma same_label_gzip : forall q h h0, same_e2e h h0 -> same_e2e (label_gzip q h) h0.
+  Proof.
+    intros q h h0 H. unfold label_gzip. destruct (q_compress_replaces_label q); [apply same_set_CE, H|].
+    intros k K1 K2. rewrite values_add. change (canon_key CE) with CE. rewrite (neq_eqb _ _ K1). apply H; assumption.
+  Qed.
+
   Lemma label_add_vary : forall v h, h_values_exact CE (h_add "Vary" v h) = h_values_exact CE h.
   Proof. intros v h. rewrite values_add. reflexivity. Qed.
 
@@ -502,9 +514,9 @@ Section Content.
     rewrite (decode_plain _ _ I3) in I4. inversion I4. subst content.
     split; cbn [rs_status rs_headers rs_body].
     - exact I1.
-    - apply same_add_Vary, same_set_CE. exact I2.
-    - right. rewrite label_add_vary. apply label_set.
-    - rewrite decode_gzip; [apply gz|]. rewrite label_add_vary. apply label_set.
+    - apply same_add_Vary, same_label_gzip. exact I2.
+    - right. rewrite label_add_vary. apply label_gzip_plain, I3.
+    - rewrite decode_gzip; [apply gz|]. rewrite label_add_vary. apply label_gzip_plain, I3.
   Qed.
 
   Lemma compress_decl : forall q m hs r, q_compress_keeps_length q = false ->
@@ -573,9 +585,9 @@ Section Content.
       rewrite (decode_plain _ _ I3) in I4. inversion I4. subst c1.
       split; cbn [set_body rs_status rs_headers rs_body].
       - exact I1.
-      - apply same_set_CE. exact I2.
-      - right. apply label_set.
-      - rewrite decode_gzip; [apply gz|apply label_set]. }
+      - apply same_label_gzip. exact I2.
+      - right. apply label_gzip_plain, I3.
+      - rewrite decode_gzip; [apply gz|apply label_gzip_plain, I3]. }
     clearbody r2. clear H1.
     destruct (a_decompress a); cbn [andb]; [|exact H2].
     destruct (String.eqb (h_get CE (rs_headers r2)) "gzip") eqn:Eg; [|exact H2].
@@ -748,7 +760,8 @@ Definition cfg0 : pcfg :=
      p_keep_host := false; p_minlen := None; p_ra := no_adapt; p_rs := no_adapt |}.
 Definition with_flag (i : N) : quirks :=
   {| q_compress_keeps_length := (i =? 1)%N; q_adaptor_body_keeps_length := (i =? 2)%N;
-     q_proxy_decoded_path := (i =? 3)%N; q_stream_compress_panics := (i =? 4)%N |}.
+     q_proxy_decoded_path := (i =? 3)%N; q_stream_compress_panics := (i =? 4)%N;
+     q_compress_replaces_label := (i =? 5)%N |}.
 
 Definition resp5 : bresp :=
   {| br_status := 200; br_headers := [("Content-Type", ["text/plain"])]; br_enc := EncCL 5; br_body := "hello" |}.
@@ -814,6 +827,33 @@ Proof.
        p_keep_host := false; p_minlen := Some 0; p_ra := no_adapt; p_rs := no_adapt |},
     [], false, resp5.
   split; [intros d H; inversion H; reflexivity|]. vm_compute. reflexivity.
+Qed.
+
+(** flag 5: a body the backend labelled "br" is compressed by the proxy: the client gets the
+    gzip of the br bytes labelled gzip only - the br coding has vanished from the label *)
+Theorem refuted_compress_replaces_label :
+  exists f c hs added b w,
+    backend_well_framed b /\ h_values_exact CE (br_headers b) = ["br"] /\
+    respond (with_flag 5) f c hs added b = Some w /\ w_status w = 200 /\
+    h_values_exact CE (w_headers w) = ["gzip"] /\ f_gunzip f (w_body w) = Some (br_body b).
+Proof.
+  exists toy_fns,
+    {| p_cstream := false; p_sstream := false; p_server_host := "backend:80"; p_host_is_name := true;
+       p_keep_host := false; p_minlen := Some 0; p_ra := no_adapt; p_rs := no_adapt |},
+    [("Accept-Encoding", ["gzip, br"])], false,
+    {| br_status := 200; br_headers := [("Content-Encoding", ["br"])]; br_enc := EncCL 5; br_body := "BROTL" |}.
+  eexists. split; [intros d H; inversion H; reflexivity|]. split; [reflexivity|].
+  split; [vm_compute; reflexivity|]. repeat split.
+Qed.
+
+(** without it the coding is appended: whatever the body already carried stays named *)
+Theorem compress_appends_label : forall q h, q_compress_replaces_label q = false ->
+  h_values_exact CE (label_gzip q h) = (h_values_exact CE h ++ ["gzip"])%list /\
+  (forall k, k <> CE -> h_values_exact k (label_gzip q h) = h_values_exact k h).
+Proof.
+  intros q h Hq. unfold label_gzip. rewrite Hq. split.
+  - rewrite values_add. change (canon_key CE) with CE. rewrite String.eqb_refl. reflexivity.
+  - intros k K. rewrite values_add. change (canon_key CE) with CE. rewrite (neq_eqb _ _ K). reflexivity.
 Qed.
 
 (** non-vacuity: the ideal model on the same inputs forwards /a%3Fb unchanged, strips the
